@@ -149,26 +149,27 @@ def run(chk):
     wherec = mc.where(f_conv)
     ra_ref = alp * rho * g * dT * L ** 3 / (eta * kap)
 
-    def conv_policy(nu_gt2):
-        def fb(node):
-            a, b = node.args
-            def is_atom(n, nm): return n.op == 'atom' and n.val[0] == nm
-            if is_atom(b, 'float_eps'):      # delta_temp vs eps: dT > eps on the analysed region
-                return {'>': 1, '>=': 1, '<': 0, '<=': 0}.get(node.val)
-            if b.op == 'const' and b.val == 50:      # layer_thickness vs MIN_THICKNESS: thick layer
-                return {'>': 1, '>=': 1, '<': 0, '<=': 0}.get(node.val)
-            if b.op == 'const' and b.val == 2:       # nusselt vs 2
-                return {'>': nu_gt2, '<=': not nu_gt2, '>=': nu_gt2, '<': not nu_gt2}.get(node.val)
-            return None
-        return fb
+    def base_policy(node):
+        # the analysed region: contrast above the float-eps switch, layer thicker than MIN_THICKNESS
+        a, b = node.args
+        def is_atom(n, nm): return n.op == 'atom' and n.val[0] == nm
+        if is_atom(b, 'float_eps') and is_atom(a, 'delta_temp'):
+            return {'>': 1, '>=': 1, '<': 0, '<=': 0}.get(node.val)
+        if is_atom(a, 'float_eps') and is_atom(b, 'delta_temp'):
+            return {'<': 1, '<=': 1, '>': 0, '>=': 0}.get(node.val)
+        if b.op == 'const' and b.val == 50 and is_atom(a, 'layer_thickness'):
+            return {'>': 1, '>=': 1, '<': 0, '<=': 0}.get(node.val)
+        if a.op == 'const' and a.val == 50 and is_atom(b, 'layer_thickness'):
+            return {'<': 1, '<=': 1, '>': 0, '>=': 0}.get(node.val)
+        return None
     from ..core.regions import masks_in
-    # thresholds the kernel compares an input against (today: none besides eps / MIN_THICKNESS / Nu = 2, which the policy covers): every
-    # ordering of the input against its thresholds is a region of its own, so a floor or cap added to an input is analysed, not rejected
+    conv = tuple(expand_minmax(v_) for v_ in conv)
+    # thresholds an *input* is compared against (a floor or cap added to an input): every ordering of the input against them is a region of its own
     thresholds = {}
     for v_ in conv:
         for m_ in masks_in(v_):
             a_, b_ = m_.args
-            if conv_policy(True)(m_) is not None:
+            if base_policy(m_) is not None:
                 continue
             if a_.op == 'atom' and b_.op == 'const':
                 thresholds.setdefault(a_.val[0], set()).add(F(b_.val))
@@ -185,31 +186,53 @@ def run(chk):
         ghost_sets = [(dict(g_, **{nm: gv}), (lb + ', ' if lb else '') + l2) for (g_, lb) in ghost_sets for (gv, l2) in pts]
     if len(ghost_sets) > 64:
         raise AnalysisError(f'{wherec}: {len(ghost_sets)} threshold regions in convection()')
-    chk.note_analysed('regions', f'convection: {2 * len(ghost_sets)} regions (Nu above / at the floor x {len(ghost_sets)} orderings of inputs against thresholds {dict((k, sorted(map(str, v))) for k, v in thresholds.items())})')
     cond_flux = cond[0]
+    nregions = 0
     for g_, glab in ghost_sets:
-        for nu_gt2 in (True, False):
-            hook = ghost_mask(g_, conv_policy(nu_gt2))
-            flux, bl, ra, nu = (X.specialize(v_, hook) for v_ in conv)
-            lab = ('Nu > 2 (convecting)' if nu_gt2 else 'Nu <= 2 (floored at 2)') + (', ' + glab if glab else '')
+        # every comparison that is left after the input orderings (Nusselt number against its floor, Rayleigh number against the critical one, ...) splits the
+        # region in two: left side above / below the right side (the boundary itself is covered by the witness search across boundaries below)
+        pre = [X.specialize(v_, ghost_mask(g_, base_policy)) for v_ in conv]
+        pairs = []
+        for v_ in pre:
+            for m_ in masks_in(v_):
+                if not any(m_.args[0] is p_[0] and m_.args[1] is p_[1] for p_ in pairs) and not any(m_.args[0] is p_[1] and m_.args[1] is p_[0] for p_ in pairs):
+                    pairs.append((m_.args[0], m_.args[1]))
+        if len(pairs) > 4:
+            raise AnalysisError(f'{wherec}: {len(pairs)} independent comparisons inside convection() on one input region')
+        import itertools
+        for assign in itertools.product((True, False), repeat=len(pairs)):
+            def hook(node, assign=assign, pairs=pairs):
+                for (pa, pb), above in zip(pairs, assign):
+                    if node.args[0] is pa and node.args[1] is pb:
+                        return {'>': above, '>=': above, '<': not above, '<=': not above, '==': False, '!=': True}.get(node.val)
+                    if node.args[0] is pb and node.args[1] is pa:
+                        return {'<': above, '<=': above, '>': not above, '>=': not above, '==': False, '!=': True}.get(node.val)
+                return None
+            flux, bl, ra, nu = (X.specialize(v_, hook) for v_ in pre)
+            conds = [f'{X.show(pa)[:40]} {">" if above else "<"} {X.show(pb)[:24]}' for (pa, pb), above in zip(pairs, assign)]
+            lab = '; '.join(conds + ([glab] if glab else [])) or 'single region'
             left = [m_ for v_ in (flux, bl, ra, nu) for m_ in masks_in(v_)]
             if left:
-                chk.undecide('R19.4', f'convection region [{lab}]', f'comparison(s) not decided by the region policy: {[X.show(m_)[:60] for m_ in left[:2]]}')
+                chk.undecide('R19.4', f'convection region [{lab}]', f'comparison(s) not decided by the region assignment: {[X.show(m_)[:60] for m_ in left[:2]]}')
                 continue
-            # structure facts (evidence only; the property does not fix the scaling law)
+            nregions += 1
             if not glab:
-                chk.note_analysed('formulas', f'convection [{lab}]: Rayleigh {"==" if d.equal(ra, ra_ref) else "!="} alpha rho g dT L^3 / (eta kappa); Nusselt '
-                                  f'{"==" if d.equal(nu, ca * X.power(ra_ref / rac, cb) if nu_gt2 else X.const(2)) else "!="} {"alpha (Ra/Ra_c)^beta" if nu_gt2 else "2"}')
+                chk.note_analysed('formulas', f'convection [{lab}]: Rayleigh {"==" if d.equal(ra, ra_ref) else "!="} alpha rho g dT L^3 / (eta kappa); Nusselt = {X.show(nu)[:70]}')
             record_sign(chk, 'R19.4', f'convection [{lab}]: flux > 0', sign_of(flux), (POS,), wherec)
             record_sign(chk, 'R19.4', f'convection [{lab}]: d flux / d dT >= 0', sign_of(X.diff(flux, 'delta_temp')), (POS, NONNEG), wherec)
             record_sign(chk, 'R19.4', f'convection [{lab}]: d flux / d viscosity <= 0', sign_of(X.diff(flux, 'viscosity')), (NEG, NONPOS, ZERO), wherec)
-            # convection >= conduction across the same layer: flux == Nu x (conductive flux) with the region's own Nusselt number, which is > 2 on the
-            # convecting region (that is what selects the region) and a constant >= 1 on the floored one
+            # convection >= conduction across the same layer: flux == Nu x (conductive flux) with the region's own Nusselt number, and Nu >= 1 either because
+            # it is a constant >= 1 there or because the region is *defined* by Nu lying above a constant >= 1
             ok_fac = d.equal(flux, cond_flux * nu)
-            nu_ok = True if nu_gt2 else (nu.op == 'const' and nu.val >= 1)
+            nu_ok = nu.op == 'const' and nu.val >= 1
+            for (pa, pb), above in zip(pairs, assign):
+                lo, hi = (pb, pa) if above else (pa, pb)          # region condition: hi > lo
+                if lo.op == 'const' and lo.val >= 1 and d.equal(hi, nu):
+                    nu_ok = True
             sg = sign_of(flux - cond_flux)
             chk.ob('R19.4', f'convection [{lab}]: flux >= conductive flux across the same layer', sg in (POS, NONNEG, ZERO) or (ok_fac and nu_ok),
-                   f'flux is not Nu x conduction with Nu >= 1 (Nu here: {X.show(nu)[:50]}) and the sign of (convection - conduction) is {sg}', wherec, method='factorisation + sign domain')
+                   f'flux is not Nu x conduction with Nu >= 1 guaranteed on this region (Nu here: {X.show(nu)[:60]}) and the sign of (convection - conduction) is {sg}', wherec, method='factorisation + sign domain')
+    chk.note_analysed('regions', f'convection: {nregions} regions analysed (orderings of inputs against thresholds {dict((k, sorted(map(str, v))) for k, v in thresholds.items())} x outcomes of the remaining comparisons)')
     # across region boundaries: the flux must not step the wrong way.  Exhibited on the extracted formula at concrete inputs (pairs of
     # viscosities / contrasts straddling every threshold and far apart); a report names the inputs.
     import random as _r
@@ -282,6 +305,32 @@ def run(chk):
     chk.floor('R19.6', 4)
     chk.floor('R19.1', 14); chk.floor('R19.2', 40); chk.floor('R19.3', 14); chk.floor('R19.4', 18)
     chk.assume('all material parameters, temperatures, thicknesses > 0; temperature contrast > float eps; layer thicker than MIN_THICKNESS; |Arrhenius exponent| < ln(float max)')
+
+
+def expand_minmax(node, memo=None):
+    """max(a, b) -> (a > b) a + (a <= b) b, min likewise: a clamp written with max/min is analysed exactly like one written with masks"""
+    memo = {} if memo is None else memo
+
+    def r(n):
+        v = memo.get(n.uid)
+        if v is not None: return v
+        if not n.args:
+            v = n
+        else:
+            a = [r(t) for t in n.args]
+            if n.op == 'fn' and n.val in ('max', 'min', 'maximum', 'minimum') and len(a) == 2:
+                big = n.val in ('max', 'maximum')
+                v = X.cmp('>' if big else '<', a[0], a[1]) * a[0] + X.cmp('<=' if big else '>=', a[0], a[1]) * a[1]
+            elif n.op == 'add': v = X.add(*a)
+            elif n.op == 'mul': v = X.mul(*a)
+            elif n.op == 'div': v = X.div(*a)
+            elif n.op == 'powi': v = X.powi(a[0], n.val)
+            elif n.op == 'fn': v = X.fn(n.val, *a)
+            elif n.op == 'cmp': v = X.cmp(n.val, *a)
+            else: raise AnalysisError(f'expand_minmax: {n.op}')
+        memo[n.uid] = v
+        return v
+    return r(node)
 
 
 def record_sign(chk, rule, inst, got, accept, where):
